@@ -25,6 +25,13 @@ def setup_side(env, disk_files=None):
     disk = S.SimDisk(disk_files)
     se.install(clock_spec=env['clock'], hash_spec=env['hash'], disk=disk)
     S.hold_junk(*env['junk'])
+    if env.get('rng_seed') is not None:
+        # forked children inherit the template's random state; real processes
+        # seed themselves from the OS - give every side its own
+        import random as _random
+        _random.seed(env['rng_seed'])
+        np.random.seed(env['rng_seed'] % (2 ** 32))
+        S.fired('rng_reseeded')
     if env.get('host'):
         S.patch_process_clock(se.clock, host=env['host'], pid=env.get('pid'), cpus=env.get('cpus'),
                                mem_pages=env.get('mem_pages'))
